@@ -128,6 +128,24 @@ CSeek(m, k, org, end) ==
     LET g == FirstGE(m, k) IN CurAt(IF g # 0 THEN g ELSE LastKey(m), org, end)
 
 ----------------------------------------------------------------------------
+(* skip-scan (iter.go / ixbuf.go SkipScan): keys are composite; pg[k] is the rank of key k's     *)
+(* prefix (its first skipStart fields) among all prefixes, sf[k] the rank of its suffix among    *)
+(* all suffixes. The iterator shows exactly the live keys whose prefix lies in [po, pe) and      *)
+(* whose suffix lies in [so, se), in key order; sk = <<po, pe, so, se>>.                          *)
+Visible(m, pg, sf, sk) ==
+    {k \in 1..Len(m) : m[k] # 0 /\ sk[1] <= pg[k] /\ pg[k] < sk[2] /\ sk[3] <= sf[k] /\ sf[k] < sk[4]}
+VAt(S) == IF S = {} THEN CurEof ELSE [st |-> "in", cur |-> Min(S)]
+VAtMax(S, N) == IF S = {} THEN CurEof ELSE [st |-> "in", cur |-> MaxB(S, N)]
+VNext(vis, c) == CASE c.st = "rew" -> VAt(vis)
+                   [] c.st = "in"  -> VAt({k \in vis : k > c.cur})
+                   [] OTHER        -> CurEof
+VPrev(vis, c, N) == CASE c.st = "rew" -> VAtMax(vis, N)
+                      [] c.st = "in"  -> VAtMax({k \in vis : k < c.cur}, N)
+                      [] OTHER        -> CurEof
+\* Seek in skip-scan mode: first visible key >= k, else the last visible key, eof if nothing is visible
+VSeek(vis, k, N) == LET ge == {x \in vis : x >= k} IN IF ge # {} THEN VAt(ge) ELSE VAtMax(vis, N)
+
+----------------------------------------------------------------------------
 (* declarative meanings, stated independently of the operators used by the actions *)
 InRange(mm, k, o, e) == k \in 1..Len(mm) /\ mm[k] # 0 /\ o <= k /\ k < e   \* (k \in KeysOf(mm), spelled out: TLC would enumerate the set)
 
